@@ -236,7 +236,7 @@ def replay_batch(H):
 
 
 # ------------------------------------------------------------------------------------------------ bounded monitors
-def mon_batches(H, r, tier):
+def mon_batches(H, r, tier, DD):
     top = 40 if tier == 'quick' else 90
     ev = 0; bad = 0
     rnd = random.Random(19)
@@ -295,7 +295,7 @@ def mon_batches(H, r, tier):
                     bad += 1
                     r.violation(dict(function='SiteBatch.search', n=n, nb=nb), 'SiteBatch.search(%r) returned %r, the site is in batch %r' % (ids[j], got, exp),
                                 witness=dict(python=True, source='bounded monitor', n=n, nb=nb, site=ids[j], observed=got, expected=exp))
-    r.bounded_clause('get_batch partition / rejections, SiteBatch[] and SiteBatch.search (run-time oracle on the real functions)', 'all 1 <= nbatch <= nelements < %d + random up to 5000' % top, ev, ev, False, bad)
+    r.bounded_clause('get_batch partition / rejections, SiteBatch[] and SiteBatch.search (run-time oracle on the real functions)', 'all 1 <= nbatch <= nelements < %d + random up to 5000' % top, ev, DD.n('get_batch'), False, bad)
 
 
 def _option_sets(tier):
@@ -334,9 +334,11 @@ def mon_options(H, r, tier):
         nonlocal bad
         bad += 1
         r.violation(dict(function='OptionManager', kind=what.split(':')[0]), what, witness=dict(python=True, source='bounded monitor', **w))
+    seen = set()
     for ci, opts in enumerate(_option_sets(tier)):
         ctx = contexts[ci % len(contexts)]
         kn = keynames[ci % len(keynames)]
+        seen.add(json.dumps([opts, ctx, kn], sort_keys=True, default=str))
         H.reset_dict_keyname()
         if kn:
             H.set_dict_keyname(*kn)
@@ -407,7 +409,7 @@ def mon_options(H, r, tier):
         finally:
             H.reset_dict_keyname()
     r.bounded_clause('OptionManager: cartesian product once each in order, get_task, find (string-form equality), to_dict/from_dict (+JSON) equality both ways with renamed keys',
-                     '1-4 options x 1-5 values (ints, identifier-like strings, bare scalars) x 3 contexts x 4 key-name settings', ev, ev, False, bad)
+                     '1-4 options x 1-5 values (ints, identifier-like strings, bare scalars) x 3 contexts x 4 key-name settings', ev, len(seen), False, bad)
 
 
 def run(tier):
@@ -418,7 +420,12 @@ def run(tier):
         from hydrodiy.io import hyruns as H
         obls, npaths = batch_obligations(H)
         numpy_contract_crosscheck(r, tier)
-        mon_batches(H, r, tier)
+        from vf import child
+        DD = child.Distinct().wrap(H, 'get_batch')
+        try:
+            mon_batches(H, r, tier, DD)
+        finally:
+            DD.restore()
         mon_options(H, r, tier)
         pproof.discharge(r, obls, replay=replay_batch(H), file=FILE, fn_of=lambda ob: 'get_batch')
         r.functions = [dict(file='hyruns.py', fn='get_batch', trusted=['numpy.arange', 'numpy.array_split'], nonterminating=[], cutloops=0, unrolled=0, terminating=1)]
